@@ -62,6 +62,14 @@ def main():
     meta['confirmed'] = ok
     note = os.path.join(src, 'note.txt')
     meta['needs_to_manifest'] = open(note).read().strip() if os.path.exists(note) else ''
+    am = os.path.join(src, 'meta.json')
+    if os.path.exists(am):
+        try:
+            a = json.load(open(am))
+            meta['summary'] = a.get('summary', '')
+            meta['needs_to_manifest'] = meta['needs_to_manifest'] or a.get('needs', '')
+        except Exception:
+            pass
     # detection by the checks
     detected = {}
     if ok:
